@@ -34,13 +34,40 @@ def showState (s : State) (e : List Ev) : String :=
   let ev := joinWith "," (starts.map (fun k => s!"start:{k}") ++ (sortBy (fun (a b : Nat × String) => a.1 < b.1) outs).map (·.2))
   s!"t={s.now} c={c} f={f} w={w} i=ok e={ev}"
 
-/-- lines: `cfg LIFETIME SLOTS` (new cache), `lookup c k`, `ok k v`, `fail k`, `cancel c`, `adv dt`; `err` = not a behaviour -/
+def parseOp : List String → Option Op
+  | ["lookup", c, k] => match c.toNat?, k.toNat? with
+    | some c, some k => some (.lookup c k)
+    | _, _ => none
+  | ["ok", k, v] => match k.toNat?, parseVal v with
+    | some k, some v => some (.loadOk k v)
+    | _, _ => none
+  | ["fail", k] => k.toNat?.map .loadFail
+  | ["cancel", c] => c.toNat?.map .cancelCaller
+  | ["adv", dt] => dt.toNat?.map .advance
+  | _ => none
+
+/-- split a token list at the token ";" -/
+def splitSemi : List String → List (List String)
+  | [] => [[]]
+  | ";" :: r => [] :: splitSemi r
+  | t :: r => match splitSemi r with
+    | [] => [[t]]
+    | g :: gs => (t :: g) :: gs
+
+/-- lines: `group OP ; OP ; …` (one loop turn), `cfg LIFETIME SLOTS` (new cache), `lookup c k`, `ok k v`, `fail k`, `cancel c`, `adv dt`; `err` = not a behaviour -/
 def handle (st : Option (Config × State)) (line : String) : Option (Config × State) × String :=
   let go (cfg : Config) (s : State) (op : Op) : Option (Config × State) × String :=
     match step cfg s op with
     | some (s', e) => (some (cfg, s'), showState s' e)
     | none => (st, "err")
   match words line, st with
+  | "group" :: toks, some (cfg, s) =>
+    match (splitSemi toks).mapM parseOp with
+    | some ops =>
+      match turn cfg s s ops with
+      | some (s', e) => (some (cfg, s'), showState s' e)
+      | none => (st, "err")
+    | none => (st, "bad-op")
   | ["cfg", l, n], _ =>
     match l.toNat?, n.toNat? with
     | some l, some n => (some (⟨l, n⟩, init), showState init [])
